@@ -77,6 +77,10 @@ def productions(d, start, rng=None):
     for n in NUMS:
         for form in NUMFORMS:
             P.append(('(' + form.replace('{n}', n).replace('{x}', '({x})') + ')', 1, {'numbers'}, 1))
+    # plain numbers of other types than int / float (module-level constants of the program: complex, Fraction, numpy scalars)
+    for n in ('N_C', 'N_F', 'N_I64', 'N_F32'):
+        for form in ('{x} + {n}', '{n} + {x}', '{n} * {x}', '{x} - {n}', '{x} * {n}'):
+            P.append(('(' + form.replace('{n}', n).replace('{x}', '({x})') + ')', 1, {'numbers', 'number-types'}, 1))
     for n in DIVNUMS:
         P.append(('(({x}) / ' + n + ')', 1, {'numbers', 'div-number'}, 1))
     for p in POWERS:
@@ -116,9 +120,10 @@ def productions(d, start, rng=None):
     P.append(('({x}).map(lambda v: 2 * v)', 1, {'map'}, 2))
     P.append(('({x}).asfullmv()', 1, {'asfullmv'}, 2))
     P.append(('({x}).filter()', 1, {'filter'}, 2))
+    # "products with plain numbers on either side": every infix product of the operator table, number left or right
     for o in ('>>', '@', '|', '&', '^'):
-        P.append((f'(2 {o} ({{x}}))', 1, {'reflected-number'}, 2))
-        P.append((f'(({{x}}) {o} 2)', 1, {'number-right'}, 2))
+        P.append((f'(2 {o} ({{x}}))', 1, {'numbers', 'reflected-number'}, 1))
+        P.append((f'(({{x}}) {o} 2)', 1, {'numbers', 'number-right'}, 1))
     P.append(('({x}).dual(kind="hodge")', 1, {'dual'}, 2))
     P.append(('(({x}) * ({y})).e', 2, {'coeff-result'}, 2))
     return P
@@ -252,10 +257,12 @@ def run_shard(shard, ctx):
             progs = [random_prog(ctx.rng, P, ['a', 'b', 'c'] if ctx.rng.random() < 0.4 else leaves, ctx.rng.randint(3, 5))
                      for _ in range(unit['count'])]
         # harness-side registered callees: plain versions for the oracle, registered versions for registration
-        plain_ns = {}
+        import numpy as _np
+        consts = {'N_C': 2j, 'N_F': Fr(1, 2), 'N_I64': _np.int64(2), 'N_F32': _np.float32(0.5)}
+        plain_ns = dict(consts)
         exec(G1_SRC + G2_SRC + H_SRC, plain_ns)
-        reg_ns = {'g1': alg.register(plain_ns['g1']), 'g2': alg.register(plain_ns['g2']),
-                  'h2': alg.register(plain_ns['h2']), 'h3': alg.register(plain_ns['h3'])}
+        reg_ns = dict(consts, g1=alg.register(plain_ns['g1']), g2=alg.register(plain_ns['g2']),
+                      h2=alg.register(plain_ns['h2']), h3=alg.register(plain_ns['h3']))
         for prog in progs:
             if ctx.out_of_time():
                 ctx.count('programs_skipped_out_of_time')
